@@ -5,10 +5,11 @@ cd /verif
 NAMES="$@"; [ -z "$NAMES" ] && NAMES=$(ls seeded)
 for n in $NAMES; do
   P=$(python3 -c "import json;print(json.load(open('/verif/seeded/$n/meta.json'))['property'])")
-  (cd /repo && git status --short | grep -q . && echo "/repo dirty" && exit 2)
-  if ! (cd /repo && git apply /verif/seeded/$n/patch.diff 2>/dev/null); then echo "$n: patch no longer applies"; continue; fi
-  timeout 3000 ./bin/vsym check $P --tier quick > /tmp/recheck_$n.txt 2>&1; RC=$?
-  (cd /repo && git checkout -q -- .)
+  WT=$(mktemp -d /tmp/wt_recheck_XXXX); rmdir $WT
+  git -C /repo worktree add -q --detach $WT HEAD
+  if ! (cd $WT && git apply /verif/seeded/$n/patch.diff 2>/dev/null); then echo "$n: patch no longer applies"; git -C /repo worktree remove --force $WT; continue; fi
+  VERIF_REPO=$WT timeout 3000 ./bin/vsym check $P --tier quick > /tmp/recheck_$n.txt 2>&1; RC=$?
+  git -C /repo worktree remove --force $WT
   echo "$n: property=$P exit=$RC $(grep -c '^VIOLATION' /tmp/recheck_$n.txt) violations"
   rm -f /tmp/recheck_$n.txt
 done
